@@ -21,11 +21,28 @@ func main() {
 	stats := fs.String("stats", "stats.json", "output driver statistics")
 	seed := fs.Int64("seed", 1, "VERIF_SEED")
 	thorough := fs.Bool("thorough", false, "thorough tier")
+	n := fs.Int("n", 10, "number of histories")
+	blocks := fs.Int("blocks", 30, "blocks per history")
+	maxops := fs.Int("maxops", 5, "max messages per block")
+	proj := fs.String("proj", "", "projection sections, comma separated")
+	boundary := fs.Bool("boundary", false, "include boundary / malformed inputs")
+	gov := fs.Bool("gov", false, "include governance-signed privileged ops")
+	nobad := fs.Bool("nobad", false, "exclude inputs that trigger open halting findings")
+	jumps := fs.Bool("jumps", false, "block-time gaps from 1ms to beyond 21 days")
+	dbias := fs.Int("dbias", 0, "dispute op bias")
+	sbias := fs.Int("sbias", 0, "staking op bias")
+	bbias := fs.Int("bbias", 0, "bridge op bias")
+	only := fs.Int("only", 0, "run only this history (1-based)")
+	mintinit := fs.Bool("mintinit", false, "governance starts minting in the bootstrap block")
 	_ = fs.Parse(os.Args[2:])
 	var err error
 	switch os.Args[1] {
 	case "c06":
 		err = h.RunC06(*cases, *trace, *stats, *seed, *thorough)
+	case "hist":
+		err = h.RunHist(*trace, *stats, h.HistDriverOpts{N: *n, Seed: *seed, Proj: *proj, Only: *only,
+			Opts: h.HistOpts{Blocks: *blocks, MaxOpsPerBlk: *maxops, Boundary: *boundary, GovOps: *gov, NoBadValues: *nobad, TimeJumps: *jumps,
+				DisputeBias: *dbias, StakingBias: *sbias, BridgeBias: *bbias, MintInitEarly: *mintinit}})
 	default:
 		err = fmt.Errorf("unknown driver %q", os.Args[1])
 	}
